@@ -136,8 +136,8 @@ static bool active(const Fields& fs) {
 // ------------------------------------------------------------------ the arena
 static const uintptr_t ARENA = 0x300000000000ULL;
 static const uintptr_t STRIDE = 1ULL << 32;
-static const size_t MAPPED = 1 << 20;
-static const int NREG = 96;
+static const size_t MAPPED = 1 << 18;
+static const int NREG = 80;
 static std::vector<size_t> g_len;        // length of every live region (input regions, then allocation slots)
 static char* rbase(size_t r) { return (char*)(ARENA + r * STRIDE); }
 static void arena_init() {
@@ -156,7 +156,7 @@ static int add_region(const void* data, size_t n) {       // returns the region 
     return (int)r;
 }
 static void arena_reset() {
-    for (size_t r = 0; r < g_len.size(); r++) ASAN_POISON_MEMORY_REGION(rbase(r), MAPPED);
+    for (size_t r = 0; r < g_len.size(); r++) ASAN_POISON_MEMORY_REGION(rbase(r), (g_len[r] + 64) & ~(size_t)63);
     g_len.clear();
 }
 // the allocator handed to the receiving iovector: every allocation is a fresh exact-size region
@@ -398,7 +398,7 @@ int main(int argc, char** argv) {
             for (size_t i = next; i < lines.size(); i++) {
                 uint32_t idx = (uint32_t)i;
                 if (write(pfd[1], &idx, sizeof idx) != (ssize_t)sizeof idx) _exit(5);
-                alarm(60);
+                alarm(20);
                 std::string out = run_line(lines[i]);
                 arena_reset();
                 puts(out.c_str()); fflush(stdout);
